@@ -20,9 +20,9 @@ ASSUME = ['small_scope', 'binary64', 'tlc', 'import', 'schemdraw']
 
 
 def models(tier, seed):
-    n1, n2 = (2500, 4000) if tier == 'quick' else (20000, 12000)
-    return [dict(module='MC_C13.tla', cfg='MC_C15_save.cfg', simulate='num=100000000', depth=8, seed=seed, max_cases=n1, workers=5, batch=20),
-            dict(module='MC_C15.tla', cfg='MC_C15_sim.cfg', simulate='num=100000000', depth=7, seed=seed + 1, max_cases=n2, workers=5, batch=20)]
+    n1, n2 = (1500, 2500) if tier == 'quick' else (15000, 15000)
+    return [dict(module='MC_C13.tla', cfg='MC_C15_save.cfg', simulate='num=100000000', depth=8, seed=seed, max_cases=n1, shards=12, batch=20),
+            dict(module='MC_C15.tla', cfg='MC_C15_sim.cfg', simulate='num=100000000', depth=7, seed=seed + 1, max_cases=n2, shards=12, batch=20)]
 
 
 def required_tags(tier):
